@@ -8,6 +8,7 @@ import ErgoModel.Url
 import ErgoModel.Program
 import ErgoModel.Render
 import ErgoModel.Codec
+import ErgoModel.Input
 open Lean Ergo Ergo.Wire Ergo.Storage
 
 def handle (j : Json) : Json :=
@@ -162,6 +163,20 @@ def handle (j : Json) : Json :=
     Json.mkObj [("enc_html", out (Ergo.Json.encodeString true sIn)), ("enc_raw", out (Ergo.Json.encodeString false sIn)),
       ("dec", match Ergo.Json.decodeString (cpsOf "lit") with | some l => out l | none => Json.null),
       ("trim", out (Text.trimSpaceL sIn)), ("blank", Text.isBlankL sIn)]
+  | "input" =>
+    -- a JSON document on stdin, as bytes → the strict decode of ParseTaskInput / ParsePlanInput
+    let os : Option String → Json := fun o => match o with | some x => Json.str x | none => Json.null
+    let doc := unhex (str j "doc")
+    if str j "kind" == "plan" then
+      match Ergo.Input.parsePlanInput doc with
+      | none => Json.mkObj [("parsed", false)]
+      | some p => Json.mkObj [("parsed", true), ("fields", Json.mkObj [("title", os p.title), ("body", os p.body),
+          ("tasks", Json.arr (p.tasks.map fun t => Json.mkObj [("title", os t.title), ("body", os t.body), ("after", Json.arr (t.after.map Json.str).toArray)]).toArray)])]
+    else
+      match Ergo.Input.parseTaskInput doc with
+      | none => Json.mkObj [("parsed", false)]
+      | some t => Json.mkObj [("parsed", true), ("fields", Json.mkObj [("title", os t.title), ("body", os t.body), ("epic", os t.epic), ("state", os t.state),
+          ("claim", os t.claim), ("result_path", os t.resultPath), ("result_summary", os t.resultSummary)])]
   | "codec" =>
     -- the line codec: classification of raw bytes, encoding of an event, time stamp text
     let classJson : LineClass → Json
